@@ -191,9 +191,11 @@ class C17(Prop):
         "definition. The step itself (c - dt/vol*Div(q*U c + Bd(q b) + Bn b), as "
         "composed in models/constitutive_laws.py) is part of the specification, not of the "
         "tied code (the models' AD composition is not executed); the oracle evaluates it exactly on "
-        "the real matrices. The legacy assemble_matrix_rhs (whose right-hand-side sign is pinned "
-        "by the repository's tests) and UpwindCoupling are outside this property's statement and "
-        "are not tied. "
+        "the real matrices. The legacy assemble_matrix_rhs is tied as a transcription (matrix = "
+        "Div*diag(q)*upwind, rhs = Div*(bound_neu + bound_dir*diag(q))*bc_values, ValueError for "
+        "k != 1; in Coq for integer data, by the exact oracle otherwise) without any claim about "
+        "its sign convention (pinned by the repository's tests); UpwindCoupling is outside this "
+        "property's statement. "
         "Robin / unflagged boundary faces are covered as the error branch only.")
     technique = ("Coq proof (characterisation of the transcribed discretisation, face-list "
                  "induction for conservation, convexity for the maximum principle over R) + "
@@ -207,7 +209,12 @@ class C17(Prop):
             "all-Dirichlet, and a corner stream (Robin faces, unflagged boundary faces, faces "
             "flagged both ways, flags on interior faces) reaching the ValueError branch; 12% of the "
             "cases omit the bc parameter (the code's default: Dirichlet on the domain boundary), some "
-            "pass an integer-dtype flux array; 1-3 "
+            "pass an integer-dtype flux array; 45% of the cases are histories on ONE data dictionary and "
+            "ONE Upwind object (1-2 earlier discretisations whose bc object, flux or component count "
+            "differs, parameters replaced in place; the matrices after the last discretisation are "
+            "compared with the model on the current parameters); assemble_matrix_rhs is called 2-3 "
+            "times on the stored matrices with an aliasing probe (stored matrices unchanged, "
+            "identical systems); 1-3 "
             "components; cycle-flow cases carry an explicit step (random cell values, dt = random "
             "fraction of the CFL limit). non-trivial = at least one non-zero flux on a grid with "
             ">= 2 cells")
@@ -262,6 +269,25 @@ class C17(Prop):
                 case["fexp"] = [rng.choice([0, 0, 0, -70, -60, -75, -53, 20]) for _ in range(nf)]
             elif rs > 0.9:
                 case["intflux"] = True        # integer dtype flux array
+            case["bcv"] = [rng.randint(-6, 6) for _ in range(nf)]
+            case["nasm"] = rng.choice([2, 2, 3])
+            if rng.random() < 0.45 and nf > 0:
+                # history on ONE data dictionary and ONE Upwind object: earlier states differ from
+                # the final one in the bc object only, the flux only, or the component count
+                prev = []
+                for _ in range(rng.choice([1, 1, 2])):
+                    st = {"flux": list(case["flux"]), "scale": case.get("scale", 0),
+                          "fexp": case.get("fexp"), "bc": list(case["bc"]), "ncomp": case["ncomp"],
+                          "nobc": False, "intflux": False}
+                    what = rng.choice(["bc", "bc", "flux", "ncomp"])
+                    if what == "bc":
+                        st["bc"] = [rng.choice([DIR, NEU]) if f in bnd else NONE for f in range(nf)]
+                    elif what == "flux":
+                        st["flux"] = [(-x if rng.random() < 0.5 else x) for x in case["flux"]]
+                    else:
+                        st["ncomp"] = rng.choice([c_ for c_ in (1, 2, 3) if c_ != case["ncomp"]])
+                    prev.append(st)
+                case["prev"] = prev
             if mode == "cycles" and r < 0.85:
                 vol = [Fraction(float(v)) for v in g.cell_volumes]
                 cfl = None
@@ -284,41 +310,116 @@ class C17(Prop):
             yield case
 
     # ------------------------------------------------------------------ implementation
-    def run_impl(self, case):
-        g = make_grid(case["grid"])
-        nf, nc = g.num_faces, g.num_cells
+    @staticmethod
+    def _params(g, st):
         bc = pp.BoundaryCondition(g)
-        code = np.array(case["bc"], dtype=int)
+        code = np.array(st["bc"], dtype=int)
         bc.is_dir = np.isin(code, [DIR, BOTH])
         bc.is_neu = np.isin(code, [NEU, BOTH])
         bc.is_rob = code == ROB
-        if case.get("intflux"):
-            flux_arr = np.array([m * 2 ** k for m, k in flux_parts(case)], dtype=int)
+        if st.get("intflux"):
+            flux_arr = np.array([m * 2 ** k for m, k in flux_parts(st)], dtype=int)
         else:
-            flux_arr = np.array([math.ldexp(float(m), k) for m, k in flux_parts(case)], dtype=float)
-        par = {"bc": bc, "darcy_flux": flux_arr, "num_components": case["ncomp"]}
-        if case.get("nobc"):
+            flux_arr = np.array([math.ldexp(float(m), k) for m, k in flux_parts(st)], dtype=float)
+        par = {"bc": bc, "darcy_flux": flux_arr, "num_components": st["ncomp"]}
+        if st.get("nobc"):
             del par["bc"]
-        data = pp.initialize_data(g, {}, KW, par)
-        data[pp.PARAMETERS][KW].pop("bc", None) if case.get("nobc") else None
-        discr = pp.Upwind(KW)
+        return par
+
+    def run_impl(self, case):
+        g = make_grid(case["grid"])
+        nf, nc = g.num_faces, g.num_cells
+        states = list(case.get("prev") or []) + [case]
+        data = pp.initialize_data(g, {}, KW, self._params(g, states[0]))
+        pd = data[pp.PARAMETERS][KW]
+        discr = pp.Upwind(KW)          # ONE object and ONE data dictionary for the whole history
         res = {"dim": int(g.dim), "nf": int(nf), "nc": int(nc), "cf": incidence(g),
                "vol": [[Fraction(float(v)).numerator, Fraction(float(v)).denominator]
                        for v in g.cell_volumes],
                "err": None}
-        try:
-            discr.discretize(g, data)
-        except ValueError:
-            res["err"] = "ValueErr"
-            return res
+        for i, st in enumerate(states):
+            par = self._params(g, st)
+            for key in ("bc", "darcy_flux", "num_components"):       # in-place update
+                if key in par:
+                    pd[key] = par[key]
+                else:
+                    pd.pop(key, None)
+            try:
+                discr.discretize(g, data)
+            except ValueError:
+                if i == len(states) - 1:
+                    res["err"] = "ValueErr"
+                    return res
         md = data[pp.DISCRETIZATION_MATRICES][KW]
-        res["U"] = canon(md[discr.upwind_matrix_key])
-        res["D"] = canon(md[discr.bound_transport_dir_matrix_key])
-        res["N"] = canon(md[discr.bound_transport_neu_matrix_key])
+        keys = (discr.upwind_matrix_key, discr.bound_transport_dir_matrix_key,
+                discr.bound_transport_neu_matrix_key)
+        res["U"], res["D"], res["N"] = (canon(md[k_]) for k_ in keys)
+        # public assemble_matrix_rhs, called repeatedly on the stored matrices (aliasing probe)
+        if g.dim > 0 and case.get("bcv") is not None:
+            pd["bc_values"] = np.array(case["bcv"], dtype=float)
+            calls = []
+            for _ in range(case.get("nasm", 2)):
+                try:
+                    A, rhs = discr.assemble_matrix_rhs(g, data)
+                    A = sps.coo_matrix(A)
+                    A.sum_duplicates()
+                    ent = sorted([int(r_), int(c_), float(v)] for r_, c_, v in zip(A.row, A.col, A.data) if v != 0)
+                    calls.append({"m": ent, "rhs": [float(x) for x in np.asarray(rhs).ravel()]})
+                except ValueError:
+                    calls.append({"err": True})
+            res["asm"] = calls
+            after = [canon(md[k_]) for k_ in keys]
+            res["stored_unchanged"] = after == [res["U"], res["D"], res["N"]]
         return res
 
     # ------------------------------------------------------------------ oracle
+    def _assemble_oracle(self, case, res):
+        calls = res.get("asm")
+        if not calls:
+            return None
+        nf, nc, k = res["nf"], res["nc"], case["ncomp"]
+        if not res.get("stored_unchanged", True):
+            return "assemble_matrix_rhs changed the stored discretisation matrices"
+        if any(c != calls[0] for c in calls[1:]):
+            return "repeated assemble_matrix_rhs calls on the same stored matrices give different systems"
+        if k != 1:
+            return None if calls[0].get("err") else "assemble_matrix_rhs accepted several components"
+        if calls[0].get("err"):
+            return "assemble_matrix_rhs raised ValueError for one component"
+        # matrix = Div diag(q) U ; rhs = Div (N + D diag(q)) bc_values, from the STORED matrices
+        q = flux_values(case)
+        bcv = [Fraction(x) for x in case["bcv"]]
+        Uf = {}
+        for r_, c_, v in res["U"]["e"]:
+            Uf.setdefault(r_, []).append((c_, v))
+        Df = {r_: v for r_, c_, v in res["D"]["e"] if r_ == c_}
+        Nf = {r_: v for r_, c_, v in res["N"]["e"] if r_ == c_}
+        M = {}
+        mag = {}
+        rhs = [Fraction(0)] * nc
+        rmag = [Fraction(0)] * nc
+        for f, c, s_ in res["cf"]:
+            for j, v in Uf.get(f, []):
+                M[(c, j)] = M.get((c, j), 0) + s_ * q[f] * v
+                mag[(c, j)] = mag.get((c, j), 0) + abs(q[f] * v)
+            t = Nf.get(f, 0) * bcv[f] + Df.get(f, 0) * q[f] * bcv[f]
+            rhs[c] += s_ * t
+            rmag[c] += abs(Nf.get(f, 0) * bcv[f]) + abs(Df.get(f, 0) * q[f] * bcv[f])
+        got = {(r_, c_): Fraction(v) for r_, c_, v in calls[0]["m"]}
+        for key_ in set(M) | set(got):
+            if abs(M.get(key_, 0) - got.get(key_, 0)) > Fraction(1, 10 ** 12) * mag.get(key_, 0):
+                return (f"assembled matrix entry {key_} = {float(got.get(key_, 0))!r} differs from "
+                        f"Div*diag(q)*upwind = {float(M.get(key_, 0))!r}")
+        for i in range(nc):
+            if abs(rhs[i] - Fraction(calls[0]["rhs"][i])) > Fraction(1, 10 ** 12) * rmag[i]:
+                return (f"assembled rhs[{i}] = {calls[0]['rhs'][i]!r} differs from "
+                        f"Div*(bound_neu + bound_dir*diag(q))*bc_values = {float(rhs[i])!r}")
+        return None
+
     def oracle(self, case, res):
+        why = self._assemble_oracle(case, res)
+        if why:
+            return why
         nf, nc, k = res["nf"], res["nc"], case["ncomp"]
         q, code = flux_values(case), case["bc"]
         per_face = {f: [] for f in range(nf)}
@@ -420,7 +521,22 @@ class C17(Prop):
         else:
             m = lambda x: f"({clist(x['e'], trip)}, ({cz(x['shape'][0])}, {cz(x['shape'][1])}))"
             exp = f"(Some ({m(res['U'])}, {m(res['D'])}, {m(res['N'])}))"
-        return f"agree {self._input(case, res)} {exp}"
+        term = f"agree {self._input(case, res)} {exp}"
+        calls = res.get("asm")
+        if calls and not case.get("scale") and not case.get("fexp"):
+            if calls[0].get("err"):
+                aexp = "None"
+            else:
+                ints = all(float(v) == int(v) for _, _, v in calls[0]["m"]) and \
+                    all(float(v) == int(v) for v in calls[0]["rhs"])
+                if not ints:
+                    return term
+                aexp = "(Some ({}, {}))".format(
+                    clist(calls[0]["m"], lambda t: f"({cz(t[0])}, {cz(t[1])}, {cz(int(t[2]))})"),
+                    clist(calls[0]["rhs"], lambda v: cz(int(v))))
+            term = (f"(let inp := {self._input(case, res)} in agree inp {exp} && "
+                    f"agree_assemble inp {clist(case['bcv'], cz)} {aexp})")
+        return term
 
     def coq_diag(self, case, res):
         return f"discretize dyadic nonnegD {self._input(case, res)}"
@@ -429,6 +545,8 @@ class C17(Prop):
         return res["nc"] >= 2 and any(x != 0 for x in case["flux"])
 
     def finding_key(self, case, res, why):
+        if "assembl" in why or "assemble_matrix_rhs" in why:
+            return "assemble-" + ("aliasing" if "stored" in why or "repeated" in why else "system")
         if "explicit step" in why:
             return "step-" + ("total" if "total" in why else "bounds")
         if "ValueError" in why:
